@@ -210,10 +210,13 @@ class C05(E1Check):
         return progs
 
     def bound(self, tier: str, program: Any) -> int:
-        return 0 if tier == "quick" else 1
+        if tier == "quick":
+            return 0
+        # one preemptive injection for trees of <= 4 components; the five-component shapes are explored over all gate orders only
+        return 1 if len(paths(program["tree"])) <= 4 else 0
 
     def max_execs(self, tier: str, program: Any) -> int:
-        return 3000 if tier == "quick" else 60000
+        return 3000 if tier == "quick" else 12000
 
     def hash_modes(self, tier: str, program: Any) -> tuple:
         return (0,)
